@@ -403,3 +403,27 @@ mod tests {
         assert!(!cfg.ignore_class_notfound_regexset.is_match("bazzer"));
     }
 }
+
+#[cfg(reclass_rs_verif)]
+impl Config {
+    /// Verification hook: `set_option`.
+    pub fn verif_set_option(
+        &mut self,
+        cfg_path: &std::path::Path,
+        k: &str,
+        v: &serde_yaml::Value,
+    ) -> Result<()> {
+        self.set_option(cfg_path, k, v, false)
+    }
+
+    /// Verification hook: `compile_ignore_class_notfound_patterns`.
+    pub fn verif_compile(&mut self) -> Result<()> {
+        self.compile_ignore_class_notfound_patterns()
+    }
+
+    /// Verification hook: `is_class_ignored`.
+    #[must_use]
+    pub fn verif_is_class_ignored(&self, cls: &str) -> bool {
+        self.is_class_ignored(cls)
+    }
+}
